@@ -17,6 +17,7 @@ import traceback
 
 ROOT = os.path.dirname(os.path.dirname(os.path.abspath(__file__)))
 REPO = os.environ.get('VERIF_REPO', '/repo')
+OUT = os.environ.get('VERIF_OUT') or None
 
 ASSUMPTIONS = {
     'A1': 'A1 machine arithmetic treated as mathematical: float64 = exact reals; float literals denote the rational they round (limit_denominator 1e6, else the exact binary value); no overflow/NaN reasoning',
@@ -151,7 +152,7 @@ class Run:
         lines = []
         for o, f in known:
             lines.append(f'KNOWN-FINDING: property={self.pid} {o.name} sig={o.sig} {f["text"]}')
-        os.makedirs(os.path.join(ROOT, 'replay', self.pid), exist_ok=True)
+        os.makedirs(os.path.join(OUT or ROOT, 'replay', self.pid), exist_ok=True)
         self._replays_done = 0
         for o, _ in new:
             path, replayed = self.write_replay(o)
@@ -189,8 +190,8 @@ class Run:
         ev = dict(property_id=self.pid, tier=self.tier, seed=self.seed, level=self.level, coverage=cov,
                   assumptions=self.assumptions + self.trusted, wall_s=round(wall, 2),
                   violations=len(new))
-        os.makedirs(os.path.join(ROOT, 'evidence'), exist_ok=True)
-        with open(os.path.join(ROOT, 'evidence', f'{self.pid}.json'), 'w') as f:
+        os.makedirs(os.path.join(OUT or ROOT, 'evidence'), exist_ok=True)
+        with open(os.path.join(OUT or ROOT, 'evidence', f'{self.pid}.json'), 'w') as f:
             json.dump(ev, f, indent=1, default=str)
         for ln in lines:
             print(ln)
@@ -208,7 +209,7 @@ class Run:
         return 0
 
     def write_replay(self, o):
-        d = os.path.join(ROOT, 'replay', self.pid)
+        d = os.path.join(OUT or ROOT, 'replay', self.pid)
         safe = re.sub(r'[^A-Za-z0-9_.-]+', '_', o.name)[:120]
         path = os.path.join(d, safe + '.json')
         replayed, text = False, ''
